@@ -7,12 +7,16 @@
 (*           both (i,j) and (j,i) into the sparse matrix                   *)
 (*   label : connected_components -- roots in increasing node order, one   *)
 (*           breadth-first wave per step, labels 0,1,2,... in root order   *)
+(*   (the machine works on list positions, as the code does; a list may hold*)
+(*   one event at several positions -- twins -- and then the comparison    *)
+(*   function is asked f(a, a) for the twin pair)                          *)
 (*   group : zip(sound_events, labels) into a dict keyed by label          *)
 (*           (insertion ordered), one step per event                       *)
 (* Every terminal state is exported as one test of the real function.      *)
 (***************************************************************************)
 EXTENDS Grouping, TLC, Json
-CONSTANTS MinN, MaxN
+CONSTANTS MinN, MaxN,
+          TwinMaxN     \* lists with twin positions (one event at several positions) are enumerated up to this length
 VARIABLES c, pc, pi, mat, calls, lab, nl, fr, gi, seqs, steps
 
 vars == <<c, pc, pi, mat, calls, lab, nl, fr, gi, seqs, steps>>
@@ -24,19 +28,33 @@ PairsFrom(n, i, j) == IF i >= n THEN <<>>
 PairSeqs == [n \in 0..MaxN |-> PairsFrom(n, 1, 2)]   \* constant: TLC evaluates it once
 PairSeq(n) == PairSeqs[n]                     \* combinations(range(n), 2), 1-based
 
-Graph(n, G) == [n |-> n, e |-> SelectSeq(PairSeq(n), LAMBDA p : p \in G)]
+\* identifier maps: restricted-growth sequences (every partition of the positions into twin classes, once)
+RECURSIVE IdMaps(_)
+IdMaps(n) == IF n = 0 THEN {<<>>}
+             ELSE {Append(m, a) : m \in IdMaps(n - 1), a \in 1..n} \cap
+                  {q \in [1..n -> 1..n] : \A k \in 1..n : q[k] <= (IF k = 1 THEN 1 ELSE 1 + SetMax({q[j] : j \in 1..(k - 1)}))}
+Identity(n) == [i \in 1..n |-> i]
+NumIds(m) == IF Len(m) = 0 THEN 0 ELSE SetMax(Range(m))
+Repeated(m) == {a \in Range(m) : Cardinality({i \in DOMAIN m : m[i] = a}) >= 2}
+\* all identifier pairs a <= b in lexicographic order; a = b only for an event the list holds twice (f(a, a))
+IdPairSeq(m) == LET k == NumIds(m)
+                    all == [q \in 1..(k * k) |-> <<((q - 1) \div k) + 1, ((q - 1) % k) + 1>>]
+                IN  SelectSeq(all, LAMBDA p : p[1] < p[2] \/ (p[1] = p[2] /\ p[1] \in Repeated(m)))
+Graph(n, m, G) == [n |-> n, id |-> m, e |-> SelectSeq(IdPairSeq(m), LAMBDA p : p \in G)]
 
-Init == /\ \E n \in MinN..MaxN : \E G \in SUBSET Range(PairSeq(n)) : c = Graph(n, G)
+Init == /\ \E n \in MinN..MaxN :
+             \E m \in (IF n <= TwinMaxN THEN IdMaps(n) ELSE {Identity(n)}) :
+                \E G \in SUBSET Range(IdPairSeq(m)) : c = Graph(n, m, G)
         /\ pc = "pairs" /\ pi = 1 /\ mat = {} /\ calls = <<>>
         /\ lab = [i \in Nodes(c) |-> -1] /\ nl = 0 /\ fr = {} /\ gi = 1 /\ seqs = <<>> /\ steps = 0
 
 PS == PairSeq(c.n)
 PairHit  == /\ pc = "pairs" /\ pi <= Len(PS) /\ Edge(c, PS[pi][1], PS[pi][2])
-            /\ calls' = Append(calls, PS[pi])
+            /\ calls' = Append(calls, <<c.id[PS[pi][1]], c.id[PS[pi][2]]>>)
             /\ mat' = mat \cup {<<PS[pi][1], PS[pi][2]>>, <<PS[pi][2], PS[pi][1]>>}
             /\ pi' = pi + 1 /\ UNCHANGED <<c, pc, lab, nl, fr, gi, seqs>>
 PairMiss == /\ pc = "pairs" /\ pi <= Len(PS) /\ ~Edge(c, PS[pi][1], PS[pi][2])
-            /\ calls' = Append(calls, PS[pi])
+            /\ calls' = Append(calls, <<c.id[PS[pi][1]], c.id[PS[pi][2]]>>)
             /\ pi' = pi + 1 /\ UNCHANGED <<c, pc, mat, lab, nl, fr, gi, seqs>>
 PairsDone == pc = "pairs" /\ pi > Len(PS) /\ pc' = "label" /\ UNCHANGED <<c, pi, mat, calls, lab, nl, fr, gi, seqs>>
 
@@ -64,7 +82,7 @@ Step == PairHit \/ PairMiss \/ PairsDone \/ NewRoot \/ Wave \/ LabelDone \/ Grou
 Next == Step /\ steps' = steps + 1
 Spec == Init /\ [][Next]_vars /\ WF_vars(Next)
 
-Out == [s \in DOMAIN seqs |-> seqs[s][2]]
+Out == [s \in DOMAIN seqs |-> [k \in DOMAIN seqs[s][2] |-> c.id[seqs[s][2][k]]]]      \* what is observed: events, not positions
 Export == pc = "done" => PrintT(<<"CASE", ToJson(c)>>)
 
 (* ---- Impl => Req ---- *)
@@ -78,10 +96,10 @@ ImplLabelSound == pc \in {"label", "group"} /\ gi = 1 =>                  \* lab
     LET cf == CompF(c) IN
     /\ \A i, j \in Nodes(c) : (lab[i] # -1 /\ lab[i] = lab[j]) => j \in cf[i]
     /\ \A i \in Nodes(c) : (lab[i] # -1 /\ (lab[i] < nl - 1 \/ fr = {})) => \A j \in cf[i] : lab[j] = lab[i]
-ImplEveryPairOnce == (pc = "label" /\ nl = 0) => calls = PS
+ImplEveryPairOnce == (pc = "label" /\ nl = 0) => calls = [k \in DOMAIN PS |-> <<c.id[PS[k][1]], c.id[PS[k][2]]>>]
 (* ---- laws of Req, once per graph ---- *)
 Laws == (pc = "label" /\ nl = 0 /\ fr = {}) =>        \* the state after the last pair (not the initial state: TLC computes those single-threaded)
-           /\ LawEquivalence(c) /\ LawContainsEdges(c) /\ LawLeast(c) /\ LawWarshall(c) /\ LawNoEdgeNoLink(c)
+           /\ LawEquivalence(c) /\ LawContainsEdges(c) /\ LawLeast(c) /\ LawWarshall(c) /\ LawNoEdgeNoLink(c) /\ LawTwins(c) /\ WellFormed(c)
 Terminates == <>(pc = "done")                    \* liveness, checked in the quick configuration (<= 5 nodes)
 \* the same fact by safety alone (used for 6 nodes, where TLC's liveness graph is slow): no state before "done" is
 \* stuck and no behaviour is longer than pairs + 1 + (a root and at most one wave per node, one empty wave per root) + 1 + n + 1
